@@ -332,7 +332,7 @@ func TestC04(t *testing.T) {
 		return
 	}
 
-	search(t, rec, "history", budget(2500, 64000), 0, func(rt *rapid.T) {
+	search(t, rec, "history", budget(2500, 640000), 0, func(rt *rapid.T) {
 		w := newWorld()
 		fail := func(sig, msg string) {
 			if sig != "" {
